@@ -46,7 +46,9 @@ def _case(draw, long=False):
             # how the reader is built: directly, from a str path, with open=False + open(), or open=False + context manager
             # "inplace" (compressed files only): the reader decompresses its file in place (keep_original=False is
             # documented as modifying the current reader), is re-opened and then used for every read
-            "how": draw(st.sampled_from(["default", "default", "str", "deferred", "context"] + (["inplace"] if cbin else [])))}
+            # "symlink": the data file is a symbolic link into a content store (git-annex / datalad / DVC layout: the target has
+            # another name in another folder), the metadata (and .ch) sit next to the link
+            "how": draw(st.sampled_from(["default", "default", "str", "deferred", "context", "symlink"] + (["inplace"] if cbin else [])))}
     nops = draw(st.integers(5, 8) if long else st.integers(24, 40))
     ops = []
     for _ in range(nops):
@@ -188,6 +190,16 @@ def run_case(case, ctx):
         path = rec.compress(binf, nc, fs, case["chunk"], keep_bin=False) if case["cbin"] else binf
         how = case.get("how", "default")
         ctx.label("how_" + how)
+        if how == "symlink":
+            store = d / "annex" / "objects"
+            store.mkdir(parents=True)
+            target = store / ("SHA256E-s%d--%08x%s" % (path.stat().st_size, case["content_seed"] & 0xffffffff, path.suffix))
+            path.rename(target)
+            try:
+                path.symlink_to(target)
+            except OSError:   # no symbolic links on this file system
+                target.rename(path)
+                ctx.label("symlinks_unsupported_here")
         if how == "inplace" and case["cbin"]:
             sr = ctx.call("C01.open", sg.Reader, path, sort=case["sort"])
             if sr is not ctx.CRASH:
